@@ -22,6 +22,7 @@ import Optyx.Props.Glue
 import Optyx.Lemmas.CoeffsLP
 import Optyx.Lemmas.CoeffsTotal
 import Optyx.Drive.Analysis
+import Optyx.Props.LPTie
 
 namespace Optyx.Props.C05
 open Optyx Optyx.Py NumAlg
@@ -43,6 +44,31 @@ theorem walker_sound (e : Expr) (V : List String) (cs : List Rat) (k : Rat)
     cs.length = V.length ∧
       ∀ (ρ : String → ℝ) (σ : Nat → ℝ), denote ρ σ e = wsum cs (V.map ρ) + (k : ℝ) :=
   coeffsGeneral_sound hlin hv h hk
+
+/-- `walker_sound` for **whatever functions the current source defines**: `K` and `W` are any functions satisfying
+    the equations harness/py2lean.py reads off the bodies of `_extract_constant_impl` and
+    `_extract_all_coefficients_impl` on this run (`Generated.constStepG`, `Generated.walkStepG`; recursive calls are
+    calls of `K` / `W`, the in-place `result[idx] += …` is the threaded list).  By `LPTie.const_unique` /
+    `LPTie.walk_unique` these are `Py.constTerm` and `Py.walk V`. -/
+theorem walker_sound_of_source_equations (V : List String)
+    (K : Expr → Except Py.Err Rat) (hK : ∀ e, K e = Generated.constStepG K e)
+    (W : Expr → List Rat → Rat → Except Py.Err (List Rat))
+    (hW : ∀ e r m, W e r m = Generated.walkStepG V K W e r m)
+    (e : Expr) (cs : List Rat) (k : Rat)
+    (hlin : Py.isLinear e = true) (hv : VarsIn V e)
+    (h : W e (List.replicate V.length 0) 1 = .ok cs) (hk : K e = .ok k) :
+    cs.length = V.length ∧
+      ∀ (ρ : String → ℝ) (σ : Nat → ℝ), denote ρ σ e = wsum cs (V.map ρ) + (k : ℝ) := by
+  rw [LPTie.walk_unique K hK V W hW] at h
+  rw [LPTie.const_unique K hK] at hk
+  exact walker_sound e V cs k hlin hv h hk
+
+/-- the hypotheses are satisfiable: the models solve the equations -/
+theorem lp_source_equations_solvable (V : List String) :
+    (∀ e, Py.constTerm e = Generated.constStepG Py.constTerm e) ∧
+    (∀ x e, Py.coeffOne x e = Generated.coeffStepG x Py.constTerm (Py.coeffOne x) e) ∧
+    (∀ e r m, Py.walk V e r m = Generated.walkStepG V Py.constTerm (Py.walk V) e r m) :=
+  ⟨LPTie.constTerm_step, LPTie.coeffOne_step, LPTie.walk_step V⟩
 
 -- non-vacuity: −(2·x + (y[0] + y[1]) − 3/2) over V = [x, y[0], y[1]] (general walker), and the
 -- VectorSum shortcut of `_try_extract_fast_binop` firing on V = [y[0], y[1]]
